@@ -25,7 +25,7 @@ IMPORTS = ("From CV Require Import Base.Cmp Base.LinAlg Model.C10_Conj Model.C10
            "Import ListNotations. Open Scope string_scope.")
 
 # ENCLOSURE cases: the R-valued likelihood formulas the theorems are about, evaluated on the case's inputs by `interval`
-ENC_TAC = ("unfold lik_gmrf, gmrf_logpdf, lik_gauss_cov, lik_gauss_prec, lik_gauss_precvec, lik_gauss_covvec, lik_gauss_covdiag, "
+ENC_TAC = ("unfold lik_gmrf, gmrf_logpdf, lik_gauss_homog, lik_gauss_cov, lik_gauss_prec, lik_gauss_precvec, lik_gauss_covvec, lik_gauss_covdiag, "
            "from_cov_scalar, from_prec_scalar, from_prec_vector, from_cov_vector, diag_of, Rdiagmat, Rsum, gaussian_of, gaussian_logpdf, "
            "lik_lmrf, lmrf_logpdf, lmrf_like_logpdf, norm1, approx_rate_R, approx_penalty, phi_delta, approx_delta, "
            "Rdot, Rmatvec, Rvsub, Rnormsq, Rmscale, Rident, Rvscale, normsq, gmrf_code_rank, gmrf_nullity; "
@@ -166,14 +166,54 @@ def build_gamma(pr, pname):
     return g
 
 
+def as_form(arr, form):
+    """the same numbers in another dtype / memory layout / container (all values are small dyadics: exactly representable)"""
+    if form in (None, "float64"):
+        return arr
+    if form == "int":
+        assert np.all(arr == np.round(arr)); return arr.astype(np.int64)
+    if form == "float32":
+        assert np.all(arr.astype(np.float32).astype(float) == arr); return arr.astype(np.float32)
+    if form == "strided":
+        big = np.full(2 * len(arr) + 1, 777.0); big[1::2] = arr; return big[1::2]          # non-contiguous view
+    if form == "reversed-view":
+        return np.ascontiguousarray(arr[::-1])[::-1]                                        # negative stride
+    if form == "list":
+        return [float(v) for v in arr]
+    if form == "readonly":
+        a = arr.copy(); a.setflags(write=False); return a
+    raise ValueError(form)
+
+
+class cfg:
+    """cuqi.config options of a spec ({'MIN_DIM_SPARSE': 3, ...}) set for the duration of a block"""
+    def __init__(self, spec):
+        self.opts, self.saved = (spec.get("config") or {}), {}
+
+    def __enter__(self):
+        import cuqi
+        for k, v in self.opts.items():
+            self.saved[k] = getattr(cuqi.config, k); setattr(cuqi.config, k, v)
+
+    def __exit__(self, *a):
+        import cuqi
+        for k, v in self.saved.items():
+            setattr(cuqi.config, k, v)
+
+
 def build_target(spec):
+    with cfg(spec):
+        return _build_target(spec)
+
+
+def _build_target(spec):
     import cuqi
     from cuqi.distribution import Gaussian, Gamma, GMRF, Posterior, JointDistribution, LMRF, Laplace
     from cuqi.implicitprior import RegularizedGaussian, RegularizedGMRF
     fam, var = spec["family"], spec.get("var")
     m = spec["m"]
-    mean = fvec(spec["mean"])
-    data = fvec(spec["data"])
+    mean = as_form(fvec(spec["mean"]), spec.get("mean_form"))
+    data = as_form(fvec(spec["data"]), spec.get("data_form"))
     pname = spec["prior"].get("name", "s")
     argname = spec.get("argname", pname)
     kw = {}
@@ -376,6 +416,29 @@ def oracle_sample(target, spec, shape_obs, rate_obs):
     return out
 
 
+def oracle_regularized(spec, shape_obs, rate_obs, n, nnz):
+    """The implicit (projected) priors have no logd of their own (it is nan).  Documented rule (Everink, Dong, Andersen 2023): the
+    conditional of the precision is that of the underlying Gaussian restricted to the components that are not at the bound, i.e. the
+    exponent of the hyper-parameter drops by 1/2 per zero component and the quadratic term is unchanged.  Reference: the UNDERLYING
+    Gaussian/GMRF built afresh from the same construction data (a different object, a different class), its Posterior's own logd
+    fitted along the hyper-parameter, minus (n - nnz)/2 in the shape."""
+    twin = dict(spec, family={"reggaussian": "gaussian", "reggmrf": "gmrf"}[spec["family"]])
+    twin.pop("preset", None)
+    T2 = build_target(twin)
+    base = 1.0 / rate_obs if (rate_obs > 0 and math.isfinite(rate_obs)) else 1.0
+    fit = fit_gamma(T2, base)
+    out = {"how": "fit of the underlying Gaussian posterior's logd, shape reduced by (n - count_nonzero)/2 = %g" % ((n - nnz) / 2)}
+    if fit is None:
+        return {"how": "underlying Gaussian logd not finite", "k": None, "r": None, "shape_fail": None, "rate_fail": None, "form_fail": None}
+    k, r, resid, scale = fit
+    k = k - (n - nnz) / 2
+    out["k"], out["r"] = k, r
+    out["form_fail"] = None if resid <= 1e-9 * scale else "underlying Gaussian logd is not of Gamma form (residual %.3g)" % resid
+    out["shape_fail"] = None if abs(shape_obs - k) <= 1e-8 * (1 + abs(k)) + 1e-12 * scale else "Gamma shape %.12g but the documented support rule implies %.12g" % (shape_obs, k)
+    out["rate_fail"] = None if abs(rate_obs - r) <= 1e-9 * abs(r) + 1e-12 * scale / base else "Gamma rate %.15g but the underlying Gaussian implies %.15g" % (rate_obs, r)
+    return out
+
+
 def site(iface):
     return {"exp": "exp.Conjugate", "legacy": "legacy.Conjugate", "approx": "exp.ConjugateApprox", "legacy_approx": "legacy.ConjugateApprox"}[iface]
 
@@ -425,20 +488,70 @@ def probe_rank_rule():
     return _RULE["rule"]
 
 
+def frac_inverse(M):
+    """exact inverse of a rational matrix (Gauss-Jordan over Fractions)"""
+    n = len(M)
+    A = [[Fraction(x) for x in row] + [Fraction(int(i == j)) for j in range(n)] for i, row in enumerate(M)]
+    for c in range(n):
+        piv = next(r for r in range(c, n) if A[r][c] != 0)
+        A[c], A[piv] = A[piv], A[c]
+        pv = A[c][c]
+        A[c] = [x / pv for x in A[c]]
+        for r in range(n):
+            if r != c and A[r][c] != 0:
+                f = A[r][c]
+                A[r] = [x - f * y for x, y in zip(A[r], A[c])]
+    return [row[n:] for row in A]
+
+
+def ref_gauss_precision(spec, n):
+    """the precision matrix at hyper-parameter 1 of a Gaussian spec, from the dependence tree alone"""
+    ent, shape, var = spec["dep"]["entries"], spec["dep"].get("shape"), spec["var"]
+    vals = [d_frac(e, 1) for e in ent]
+    if shape is None or len(vals) == 1:
+        M = [[vals[0] if i == j else Fraction(0) for j in range(n)] for i in range(n)]
+    elif len(shape) == 1:
+        M = [[vals[i] if i == j else Fraction(0) for j in range(n)] for i in range(n)]
+    else:
+        M = [[vals[i * n + j] for j in range(n)] for i in range(n)]
+    if var == "prec":
+        return M
+    if var == "cov":
+        return frac_inverse(M)
+    raise ValueError(var)
+
+
 def sample_cases(ctx, spec, iface, cell, reuse=None):
     """run one conjugate draw, return the (shape, rate) cases.  reuse = an existing experimental sampler object whose target is
     replaced (what Gibbs does on every sweep) instead of constructing a fresh one"""
     target = build_target(spec)
-    if reuse is not None:
+    with cfg(spec):
+        if reuse is not None:
+            with QUIET:
+                reuse.target = target
+            sampler = reuse
+        else:
+            ckw = {}
+            if spec.get("initial_point") is not None and iface == "exp":
+                ckw["initial_point"] = np.array([float(Fraction(spec["initial_point"]))])
+            import importlib
+            mod_, cls_ = IFACES[iface]
+            with QUIET:
+                sampler = getattr(importlib.import_module(mod_), cls_)(target, **ckw)
+        if spec.get("reassign"):
+            # attribute re-assignment on the live prior object AFTER the sampler was constructed: the draw must follow it
+            ra = spec["reassign"]
+            target.prior.shape = float(Fraction(ra["alpha"])); target.prior.rate = float(Fraction(ra["beta"]))
+            spec = dict(spec, prior=dict(spec["prior"], alpha=ra["alpha"], beta=ra["beta"]))
+        if spec.get("legacy_step_x") is not None and iface == "legacy":
+            with GammaTrap() as tr, QUIET:
+                val = sampler.step(x=np.array([float(Fraction(spec["legacy_step_x"]))]))
+            ga, ncalls, scripted, acc = tr.gamma_args(), len(tr.calls), tr.value, 1
+        else:
+            val, ga, ncalls, scripted, acc = draw(iface, sampler)
+        dist = target.likelihood.distribution
         with QUIET:
-            reuse.target = target
-        sampler = reuse
-    else:
-        sampler = construct(iface, target)
-    val, ga, ncalls, scripted, acc = draw(iface, sampler)
-    dist = target.likelihood.distribution
-    with QUIET:
-        d1 = dist(np.array([1]))
+            d1 = dist(np.array([1]))
     b = [frac(x) for x in np.asarray(target.likelihood.data, dtype=float)]
     Ax = [frac(x) for x in np.ravel(np.asarray(d1.mean, dtype=float))]
     if len(Ax) == 1 and len(b) > 1:
@@ -454,18 +567,10 @@ def sample_cases(ctx, spec, iface, cell, reuse=None):
         reg = SQRT_EPS if spec["bc"] != "zero" else Fraction(0)
     else:
         g = d1 if fam == "gaussian" else d1.gaussian
-        # precision at unit hyper-parameter, from the distribution's own sqrtprec-independent attribute where it exists
-        try:
-            Pp = g.prec
-            Pp = np.asarray(Pp.todense() if hasattr(Pp, "todense") else Pp, dtype=float)
-            if Pp.ndim == 0 or Pp.size == 1:
-                Pp = float(np.ravel(Pp)[0]) * np.eye(n)
-            elif Pp.ndim == 1:
-                Pp = np.diag(Pp)
-            P = Pp
-        except Exception:
-            P = L.T @ L
-        rank = int(g.rank)
+        # precision at unit hyper-parameter computed by the harness from the construction data in exact rationals
+        # (independent of the object: nothing is read back from the distribution)
+        P = ref_gauss_precision(spec, n)
+        rank = n
         reg = Fraction(0)
     alpha, beta = Fraction(spec["prior"]["alpha"]), Fraction(spec["prior"]["beta"])
     m_code = sum(1 for x in b if x != 0) if fam.startswith("reg") else n
@@ -482,7 +587,10 @@ def sample_cases(ctx, spec, iface, cell, reuse=None):
     rate_obs = 1.0 / scale_obs
     v2 = float(sum((a - c) ** 2 for a, c in zip(Ax, b)))
     has_density = not fam.startswith("reg")
-    orc = oracle_sample(target, spec, shape_obs, rate_obs) if has_density else None
+    if has_density:
+        orc = oracle_sample(target, spec, shape_obs, rate_obs)
+    else:
+        orc = oracle_regularized(spec, shape_obs, rate_obs, n, m_code)
     # --- shape
     fail, sig = None, ""
     if not ok_val:
@@ -517,6 +625,10 @@ def sample_cases(ctx, spec, iface, cell, reuse=None):
     elif fam == "gaussian" and spec["var"] == "cov" and spec["dep"]["shape"] == [n, n] and n <= 5 and spec.get("cov_diag"):
         rows = ["[" + "; ".join(("%s * (1 / s)" % cr(Fraction(spec["cov_diag"][i]))) if i == j else "0" for j in range(n)) + "]" for i in range(n)]
         form = "lik_gauss_covdiag (fun s => [%s]) %s %s" % ("; ".join(rows), crvec(Ax), crvec(b))
+    elif fam == "gaussian" and spec["dep"]["shape"] == [n, n] and n <= 4 and not spec.get("cov_diag"):
+        # dense full matrix (legacy only): the homogeneous form with the implementation's factor at unit hyper-parameter, whose law
+        # L^T L = P_ref (P_ref computed by the harness in exact rationals) is checked by the rate case of the same draw
+        form = "lik_gauss_homog %s 0 %s %s %s" % (cnat(n), crmat(L), crvec(Ax), crvec(b))
     if form:
         s1, s2 = ctx.rng.choice([(2, 1), (4, 1), (3, 2), (Fraction(1, 2), 2), (4, Fraction(1, 2))])
         with QUIET:
@@ -534,8 +646,19 @@ def gen_sample_specs(ctx):
     alphas = [Fraction(1, 2), Fraction(1), Fraction(3, 2), Fraction(2), Fraction(13, 4), Fraction(1, 8)]
     betas = [Fraction(1, 1024), Fraction(1, 2), Fraction(1), Fraction(11, 4), Fraction(1, 10000)]
 
-    def prior():
-        return {"kind": "gamma", "dim": 1, "name": rng.choice(["s", "d", "tau"]), "alpha": str(rng.choice(alphas)), "beta": str(rng.choice(betas))}
+    # hyper-prior regime is a lattice dimension: vague (what the repo's tests and demos use), informative (beta comparable to the
+    # data misfit q/2, alpha comparable to m/2), strong (prior dominates).  Rotated deterministically over the cases of every cell.
+    REGIMES = {"vague": ([Fraction(1), Fraction(1, 2), Fraction(1, 8)], [Fraction(1, 1024), Fraction(1, 10000)]),
+               "informative": ([Fraction(3), Fraction(13, 4), Fraction(3, 2), Fraction(2)], [Fraction(5, 2), Fraction(12), Fraction(11, 4), Fraction(1, 2), Fraction(1)]),
+               "strong": ([Fraction(40), Fraction(129, 2), Fraction(25, 2)], [Fraction(64), Fraction(250), Fraction(37, 2)])}
+    counter = [0]
+
+    def prior(regime=None):
+        if regime is None:
+            regime = ["informative", "vague", "strong"][counter[0] % 3]
+            counter[0] += 1
+        al, be = REGIMES[regime]
+        return {"kind": "gamma", "dim": 1, "name": rng.choice(["s", "d", "tau"]), "alpha": str(rng.choice(al)), "beta": str(rng.choice(be)), "regime": regime}
 
     def vec(m, zeros=False):
         v = [dy(rng) for _ in range(m)]
@@ -640,6 +763,81 @@ def gen_sample_specs(ctx):
             for iface in ["exp", "legacy"]:
                 out.append(({"family": "gmrf", "m": m, "N": None, "two_d": False, "bc": bc, "order": order, "var": "prec", "dep": scalar_dep(V()),
                              "prior": prior(), "route": "direct", "data": vec(m), "mean": ["0"] * m}, iface, "gmrf/%s/o%d/n%d/%s" % (bc, order, m, iface)))
+    # every hyper-prior regime for every pair class and interface (guaranteed, not only by rotation)
+    for regime in ["vague", "informative", "strong"]:
+        for iface in ["exp", "legacy"]:
+            for fam, extra in [("gaussian", {"var": "prec", "dep": scalar_dep(V())}), ("gaussian", {"var": "cov", "dep": scalar_dep(Inv(V()))}),
+                               ("gmrf", {"var": "prec", "dep": scalar_dep(V()), "bc": "zero", "order": 2, "N": None, "two_d": False}),
+                               ("gmrf", {"var": "prec", "dep": scalar_dep(V()), "bc": "periodic", "order": 1, "N": 3, "two_d": True}),
+                               ("reggaussian", {"var": "prec", "dep": scalar_dep(V()), "preset": "nonnegativity", "bc": "zero", "order": 1}),
+                               ("reggmrf", {"var": "prec", "dep": scalar_dep(V()), "preset": "nonnegativity", "bc": "zero", "order": 1})]:
+                m = 9 if extra.get("two_d") else rng.randint(3, 5)
+                data = vec(m, fam.startswith("reg"))
+                if fam.startswith("reg"):
+                    data = [str(abs(Fraction(x))) for x in data]
+                out.append((dict({"family": fam, "m": m, "prior": prior(regime), "route": "direct", "data": data,
+                                  "mean": ["0"] * m if fam.endswith("gmrf") else vec(m)}, **extra), iface, "%s/regime:%s/%s" % (fam, regime, iface)))
+    # dense full (non-diagonal) covariance / precision matrices: only the legacy sampler accepts them
+    for rep in range(ctx.n(2, 8)):
+        for kind in ["cov_full", "prec_full"]:
+            m = rng.randint(2, 4)
+            B = [[Fraction(rng.randint(-2, 2), 2) for _ in range(m)] for _ in range(m)]
+            Mx = [[sum(B[k][i] * B[k][j] for k in range(m)) + (Fraction(rng.choice([1, 2, 4])) if i == j else 0) for j in range(m)] for i in range(m)]   # SPD, dyadic
+            if kind == "cov_full":
+                ent = [Mul(Cn(Mx[i][j]), Inv(V())) for i in range(m) for j in range(m)]
+            else:
+                ent = [Mul(Cn(Mx[i][j]), V()) for i in range(m) for j in range(m)]
+            for cfgopt in [None, {"MIN_DIM_SPARSE": 1}]:
+                out.append(({"family": "gaussian", "m": m, "prior": prior(), "route": "direct", "var": kind[:-5], "dep": array_dep(ent, (m, m)),
+                             "data": vec(m), "mean": vec(m), "config": cfgopt}, "legacy", "gaussian/%s/%s/legacy" % (kind, "sparseflag" if cfgopt else "dense")))
+    # dtype / memory layout / container of the data and of the mean
+    for form in ["int", "float32", "strided", "reversed-view", "list", "readonly"]:
+        for iface in ["exp", "legacy"]:
+            for fam, extra in [("gaussian", {"var": "prec", "dep": scalar_dep(V())}), ("gaussian", {"var": "cov", "dep": scalar_dep(Inv(V()))}),
+                               ("gmrf", {"var": "prec", "dep": scalar_dep(V()), "bc": "neumann", "order": 1, "N": None, "two_d": False}),
+                               ("reggaussian", {"var": "prec", "dep": scalar_dep(V()), "preset": "nonnegativity", "bc": "zero", "order": 1})]:
+                m = rng.randint(3, 5)
+                data = [str(Fraction(rng.randint(0 if fam.startswith("reg") else -6, 6))) for _ in range(m)]
+                if fam.startswith("reg"):
+                    data[rng.randrange(m)] = "0"
+                spec = dict({"family": fam, "m": m, "prior": prior(), "route": "direct", "data": data, "data_form": form,
+                             "mean": ["0"] * m if fam == "gmrf" else [str(Fraction(rng.randint(-3, 3))) for _ in range(m)]}, **extra)
+                if fam != "gmrf" and form != "list":
+                    spec["mean_form"] = form
+                out.append((spec, iface, "%s/%s/data-form:%s/%s" % (fam, extra["var"], form, iface)))
+    # options of the library and of the entry points
+    for iface in ["exp", "legacy"]:
+        for cname, copt in [("MIN_DIM_SPARSE=2", {"MIN_DIM_SPARSE": 2}), ("MAX_DIM_INV=3", {"MAX_DIM_INV": 3})]:
+            for fam, extra in [("gaussian", {"var": "prec", "dep": scalar_dep(V())}), ("gaussian", {"var": "cov", "dep": scalar_dep(Inv(V()))}),
+                               ("gaussian", {"var": "prec", "dep": "vec"}),
+                               ("gmrf", {"var": "prec", "dep": scalar_dep(V()), "bc": "periodic", "order": 1, "N": None, "two_d": False}),
+                               ("gmrf", {"var": "prec", "dep": scalar_dep(V()), "bc": "zero", "order": 1, "N": None, "two_d": False})]:
+                m = rng.randint(4, 6)
+                extra = dict(extra)
+                if extra["dep"] == "vec":
+                    extra["dep"] = array_dep([V()] * m, (m,))
+                out.append((dict({"family": fam, "m": m, "prior": prior(), "route": "direct", "data": vec(m), "mean": ["0"] * m if fam == "gmrf" else vec(m),
+                                  "config": copt}, **extra), iface, "%s/config:%s/%s" % (fam, cname, iface)))
+        m = 3
+        out.append(({"family": "gaussian", "m": m, "prior": prior(), "route": "direct", "var": "cov", "dep": scalar_dep(Inv(V())), "data": vec(m), "mean": vec(m),
+                     "initial_point": "3", "legacy_step_x": "7"}, iface, "gaussian/cov_recip/entry-options/" + iface))
+        out.append(({"family": "gmrf", "m": 4, "N": None, "two_d": False, "bc": "zero", "order": 1, "var": "prec", "dep": scalar_dep(V()), "prior": prior(),
+                     "route": "direct", "data": vec(4), "mean": ["0"] * 4, "initial_point": "1/2", "legacy_step_x": "0"}, iface, "gmrf/zero/entry-options/" + iface))
+        # attribute re-assignment on the live prior after construction
+        for fam, extra in [("gaussian", {"var": "prec", "dep": scalar_dep(V())}), ("gmrf", {"var": "prec", "dep": scalar_dep(V()), "bc": "zero", "order": 1, "N": None, "two_d": False})]:
+            m = 4
+            out.append((dict({"family": fam, "m": m, "prior": prior("vague"), "route": "direct", "data": vec(m), "mean": ["0"] * m,
+                              "reassign": {"alpha": "7/2", "beta": "9"}}, **extra), iface, "%s/prior-reassigned/%s" % (fam, iface)))
+        # falsy but legitimate: all-zero data, all-zero mean, both
+        for fam, extra in [("gaussian", {"var": "prec", "dep": scalar_dep(V())}), ("gaussian", {"var": "cov", "dep": scalar_dep(Inv(V()))}),
+                           ("gmrf", {"var": "prec", "dep": scalar_dep(V()), "bc": "zero", "order": 1, "N": None, "two_d": False}),
+                           ("reggaussian", {"var": "prec", "dep": scalar_dep(V()), "preset": "nonnegativity", "bc": "zero", "order": 1}),
+                           ("reggmrf", {"var": "prec", "dep": scalar_dep(V()), "preset": "nonnegativity", "bc": "zero", "order": 1})]:
+            m = 4
+            out.append((dict({"family": fam, "m": m, "prior": prior(), "route": "direct", "data": ["0"] * m, "mean": ["0"] * m if fam.endswith("gmrf") else vec(m)}, **extra),
+                        iface, "%s/%s/zero-data/%s" % (fam, extra["var"], iface)))
+            out.append((dict({"family": fam, "m": m, "prior": prior(), "route": "direct", "data": ["0"] * m, "mean": ["0"] * m}, **extra),
+                        iface, "%s/%s/zero-data-zero-mean/%s" % (fam, extra["var"], iface)))
     # regularized (implicit priors have no density of their own: correspondence of (shape, rate) only)
     for fam, var, dep in [("reggaussian", "cov", scalar_dep(Inv(V()))), ("reggaussian", "prec", scalar_dep(V())), ("reggmrf", "prec", scalar_dep(V()))]:
         for iface in ["exp", "legacy"]:
@@ -739,7 +937,8 @@ def target_coq(spec, order):
     pr = spec["prior"]
     loc0 = True
     if spec["family"] == "lmrf":
-        loc0 = sum(Fraction(x) for x in spec["mean"]) == 0 if spec.get("loc_vec") else Fraction(spec["mean"][0]) == 0
+        locs = [Fraction(x) for x in spec["mean"]] if spec.get("loc_vec") else [Fraction(spec["mean"][0])]
+        loc0 = (sum(locs) == 0) if approx_location_variant() == "sum" else all(x == 0 for x in locs)
     return ("{| t_is_posterior := %s; t_lik := %s; t_prior := %s; t_prior_dim := %s; t_par_name := %s; t_mutable := %s; "
             "t_preset_nonneg := %s; t_location_sum_zero := %s |}") % (
         cbool(spec.get("posterior", True)), lik_kind(spec["family"]), "KGamma" if pr["kind"] == "gamma" else "KOtherPrior",
@@ -805,6 +1004,36 @@ def nonscalar_oracle(target, spec, iface, sampler):
     return detail
 
 
+_LAPPROX = {}
+
+
+def approx_location_variant():
+    """how the experimental ConjugateApprox tests 'zero mean LMRF': today np.sum(location) != 0 ('sum'), with
+    fixes/C10_approx_location.diff np.any(location != 0) ('any'); probed with location [1, -1, 0]"""
+    if "loc" not in _LAPPROX:
+        spec = {"family": "lmrf", "m": 3, "var": "scale", "dep": scalar_dep(Inv(V())), "mean": ["1", "-1", "0"], "loc_vec": True, "data": ["1", "0", "2"],
+                "route": "direct", "prior": {"kind": "gamma", "dim": 1, "name": "s", "alpha": "3/2", "beta": "1/2"}}
+        try:
+            construct("approx", build_target(spec)); _LAPPROX["loc"] = "sum"
+        except ValueError:
+            _LAPPROX["loc"] = "any"
+    return _LAPPROX["loc"]
+
+
+def legacy_approx_variant():
+    """which legacy ConjugateApprox the tree has: today's (types only) or the one of fixes/C10_legacy_approx_dim.diff (also refuses
+    a Gamma prior that is not one-dimensional); probed with a 2-dimensional Gamma declared through its geometry"""
+    if "v" not in _LAPPROX:
+        spec = {"family": "lmrf", "m": 3, "var": "scale", "dep": scalar_dep(Inv(V())), "mean": ["0"], "data": ["1", "0", "2"], "route": "direct",
+                "prior": {"kind": "gamma", "dim": 2, "decl": "geometry_int", "name": "s", "alpha": "3/2", "beta": "1/2"}}
+        try:
+            construct("legacy_approx", build_target(spec))
+            _LAPPROX["v"] = "ILegacyApprox"
+        except ValueError as e:
+            _LAPPROX["v"] = "ILegacyApproxDim" if "univariate" in str(e) else "ILegacyApprox"
+    return _LAPPROX["v"]
+
+
 def validation_case(ctx, spec, iface, cell):
     meta = {"op": "validate", "iface": iface, "spec": spec}
     try:
@@ -863,7 +1092,8 @@ def validation_case(ctx, spec, iface, cell):
         except Exception as e:
             fail = "accepted, but the draw raised %s: %s" % (type(e).__name__, str(e)[:120])
             sig = ("legacy.Conjugate|no-structural-validation" if iface == "legacy" else "exp.Conjugate|accepted-then-raises")
-    expr = "check_validate %s %s (%s)" % (IFACE_COQ[iface], target_coq(spec, order), obs)
+    icoq = legacy_approx_variant() if iface == "legacy_approx" else IFACE_COQ[iface]
+    expr = "check_validate %s %s (%s)" % (icoq, target_coq(spec, order), obs)
     return [Case(expr=expr, meta=meta, cell=cell, kind="DECISION", impl_fail=fail, signature=sig)]
 
 
@@ -1007,12 +1237,22 @@ def approx_cases(ctx):
             x = [dy(rng, -4, 4, 4) for _ in range(n)]
             alpha, beta = rng.choice([Fraction(1), Fraction(3, 2), Fraction(1, 4)]), rng.choice([Fraction(1, 2), Fraction(1, 1024), Fraction(3)])
             bc = rng.choice(["zero", "periodic", "neumann"])
+            # location: scalar 0 (documented requirement), a zero vector, or -- every third case -- a NON-zero vector whose entries sum to 0
+            lockind = ["scalar0", "zerovec", "sumzero"][rep % 3] if n >= 3 else "scalar0"
+            locv = [0.0] * n
+            if lockind == "sumzero":
+                locv[0], locv[1] = 1.0, -1.0
             with QUIET:
-                d = LMRF(0, lambda s: 1 / s, geometry=n, bc_type=bc, name="x")
+                d = LMRF(0 if lockind == "scalar0" else np.array(locv), lambda s: 1 / s, geometry=n, bc_type=bc, name="x")
                 T = Posterior(d.to_likelihood(np.array([float(v) for v in x])), Gamma(float(alpha), float(beta), name="s"))
-                smp = construct(iface, T)
+                try:
+                    smp = construct(iface, T)
+                except ValueError as e:
+                    if lockind == "sumzero" and "zero mean" in str(e):
+                        continue          # refused (tree with fixes/C10_approx_location.diff): nothing to compare
+                    raise
             val, ga, ncalls, scripted, acc = draw(iface, smp)
-            meta = {"op": "approx", "iface": iface, "n": n, "x": [str(v) for v in x], "alpha": str(alpha), "beta": str(beta), "bc": bc}
+            meta = {"op": "approx", "iface": iface, "n": n, "x": [str(v) for v in x], "alpha": str(alpha), "beta": str(beta), "bc": bc, "location": lockind}
             if ga is None:
                 cases.append(Case(expr="false", meta=meta, cell="approx/%s/%s" % (bc, iface), kind="DECISION"))
                 continue
@@ -1022,7 +1262,16 @@ def approx_cases(ctx):
             ok_val = float(np.ravel(np.asarray(val, dtype=float))[0]) == scripted
             expr = "check_approx %s %s %s %s %s %s %s && %s" % (cqmat(D), cqvec(x), cqvec(w), cq(alpha), cq(beta), cq(ga[0]),
                                                                cq(Fraction(1) / frac(ga[1])), cbool(ok_val))
-            cases.append(Case(expr=expr, meta=meta, cell="approx/%s/%s" % (bc, iface), kind="EXACT"))
+            # independent statement of the documented approximation: smoothed l1 penalty of D (x - location)
+            t_ref = D @ (np.array([float(v) for v in x]) - np.array(locv))
+            rate_ref = float(np.sum(t_ref ** 2 / np.sqrt(t_ref ** 2 + 1e-5))) + float(beta)
+            fail, sig = None, ""
+            if ga is not None and abs(1.0 / ga[1] - rate_ref) > 1e-9 * abs(rate_ref):
+                fail = ("LMRF location %s is not zero but the sampler was constructed and ignores it: Gamma rate %.12g where the smoothed penalty of D(x - location) "
+                        "gives %.12g" % (locv, 1.0 / ga[1], rate_ref))
+                sig = ("exp.ConjugateApprox|location:nonzero-with-zero-sum-accepted" if iface == "approx" else "legacy.ConjugateApprox|location-ignored") \
+                    if lockind == "sumzero" else "%s|gamma-rate-not-the-documented-approximation" % site(iface)
+            cases.append(Case(expr=expr, meta=meta, cell="approx/%s/%s/loc:%s" % (bc, iface, lockind), kind="EXACT", impl_fail=fail, signature=sig))
             if n <= 6:
                 # the R-valued formulas of the ConjugateApprox theorems, computed by the model itself (no certificate)
                 robs = Fraction(1) / frac(ga[1])
@@ -1215,6 +1464,23 @@ def known_witnesses(ctx):
         res["legacy.ConjugateApprox|nonscalar-gamma-accepted"] = (True, nonscalar_oracle(T, spec, "legacy_approx", smp))
     except Exception as e:
         res["legacy.ConjugateApprox|nonscalar-gamma-accepted"] = (False, "refused: %s" % str(e)[:100])
+    # ConjugateApprox and a non-zero LMRF location
+    from cuqi.distribution import LMRF, Gamma, Posterior
+    for iface, sg in (("approx", "exp.ConjugateApprox|location:nonzero-with-zero-sum-accepted"), ("legacy_approx", "legacy.ConjugateApprox|location-ignored")):
+        try:
+            with QUIET:
+                d = LMRF(np.array([1.0, -1.0, 0.0, 0.0]), lambda s: 1 / s, geometry=4, name="x")
+                xw = np.array([2.0, 0.0, 1.0, 3.0])
+                T = Posterior(d.to_likelihood(xw), Gamma(1.0, 0.5, name="s"))
+                smp = construct(iface, T)
+            val, ga, *_ = draw(iface, smp)
+            D = np.column_stack([np.asarray(d._diff_op @ e, dtype=float) for e in np.eye(4)])
+            t = D @ (xw - np.array([1.0, -1.0, 0.0, 0.0]))
+            ref = float(np.sum(t ** 2 / np.sqrt(t ** 2 + 1e-5))) + 0.5
+            bad = abs(1.0 / ga[1] - ref) > 1e-9 * ref
+            res[sg] = (bool(bad), "rate %.9g vs %.9g for D(x - location)" % (1.0 / ga[1], ref))
+        except ValueError as e:
+            res[sg] = (False, "refused: %s" % str(e)[:80])
     # probe: polynomial equal to the identity at 1, 10, 100 only
     spec = _wit_spec(fam="gaussian", dep=scalar_dep(poly_vanishing([1, 10, 100], Fraction(1, 2 ** 20), square=True)))
     T = build_target(spec)
@@ -1251,7 +1517,13 @@ def oracle(ctx, meta):
     if m.get("op") == "sample":
         spec, iface = m["spec"], m["iface"]
         if spec["family"].startswith("reg"):
-            return None
+            T = build_target(spec)
+            val, ga, *_ = draw(iface, construct(iface, T))
+            if ga is None:
+                return "the draw is not one numpy.random.gamma call"
+            bb = np.asarray(T.likelihood.data, dtype=float)
+            orc = oracle_regularized(spec, ga[0], 1.0 / ga[1], len(bb), int(np.count_nonzero(bb)))
+            return orc["form_fail"] or orc["shape_fail"] or orc["rate_fail"]
         T = build_target(spec)
         val, ga, *_ = draw(iface, construct(iface, T))
         if ga is None:
